@@ -53,6 +53,17 @@ var GNPool = []GNPoolEntry{
 	{"dns-upper", func() *der.Node { return GNDNS("WWW.EXAMPLE.COM") }},
 	{"dns-ip-like", func() *der.Node { return GNDNS("192.168.1.1") }},
 	{"dns-arpa", func() *der.Node { return GNDNS("4.3.2.10.in-addr.arpa") }},
+	{"dns-arpa-public", func() *der.Node { return GNDNS("8.8.8.8.in-addr.arpa") }},
+	{"dns-arpa-short", func() *der.Node { return GNDNS("2.0.192.in-addr.arpa") }},
+	{"dns-arpa-not-numeric", func() *der.Node { return GNDNS("a.b.c.d.in-addr.arpa") }},
+	{"dns-ip6-arpa-public", func() *der.Node {
+		return GNDNS("8.8.8.8.0.0.0.0.0.0.0.0.0.0.0.0.0.0.0.0.0.6.8.4.0.6.8.4.1.0.0.2.ip6.arpa")
+	}},
+	{"dns-ip6-arpa-reserved", func() *der.Node {
+		return GNDNS("1.0.0.0.0.0.0.0.0.0.0.0.0.0.0.0.0.0.0.0.0.0.0.0.8.b.d.0.1.0.0.2.ip6.arpa")
+	}},
+	{"dns-ip6-arpa-short", func() *der.Node { return GNDNS("8.b.d.0.1.0.0.2.ip6.arpa") }},
+	{"dns-arpa-other-zone", func() *der.Node { return GNDNS("home.arpa") }},
 	{"dns-empty", func() *der.Node { return GNDNS("") }},
 	{"dns-non-ia5", func() *der.Node { return der.CtxPrim(2, []byte("w\xc3\xbcrst.example.com")) }},
 	{"dns-nul", func() *der.Node { return der.CtxPrim(2, []byte("www.exa\x00mple.com")) }},
